@@ -5921,6 +5921,11 @@ impl BytecodeVM {
                 {
                     match &value {
                         JsValue::Object(proto) => {
+                            if crate::interpreter::builtins::object::would_create_prototype_cycle(
+                                obj_ref, proto,
+                            ) {
+                                return Err(JsError::type_error("Cyclic __proto__ value"));
+                            }
                             obj_ref.borrow_mut().prototype = Some(proto.clone());
                         }
                         JsValue::Null => {
